@@ -124,7 +124,7 @@ def count_statements(prog):
 # ------------------------------------------------------------------------------------------------
 
 class Gen:
-    def __init__(self, d, n_flows=None, instant_end=False, allow_vars=True, allow_actions=True, allow_groups=True, allow_when=True, max_body=4, rich_values=False, action_scope_bias=False, finishing_main=False):
+    def __init__(self, d, n_flows=None, instant_end=False, allow_vars=True, allow_actions=True, allow_groups=True, allow_when=True, max_body=4, rich_values=False, action_scope_bias=False, finishing_main=False, events=None):
         self.d = d
         self.n = n_flows if n_flows is not None else d.randint(2, 6, "nflows")
         self.instant_end = instant_end
@@ -136,6 +136,10 @@ class Gen:
         self.rich_values = rich_values
         self.action_scope_bias = action_scope_bias
         self.finishing_main = finishing_main
+        # a reduced event alphabet makes parent and child flows wait for the SAME event: one delivery then ends a flow and
+        # advances its children in the same processing step (the races behind F15, F19-F22)
+        self.events = list(events) if events else None
+        self.few_actions = bool(events) and d.chance(0.6, "few_actions")
         self.uid = 0
         self.activated = set()
 
@@ -145,9 +149,9 @@ class Gen:
 
     def wait_external(self, key):
         d = self.d
-        ev = d.choice(EVENTS, key, "ev")
+        ev = d.choice(self.events or EVENTS, key, "ev")
         args = {}
-        if d.chance(0.4, key, "arg"):
+        if d.chance(0.15 if self.events else 0.4, key, "arg"):
             args["x"] = d.choice(VALUES, key, "x")
         return {"k": "match", "ev": ev, "args": args}
 
@@ -156,8 +160,10 @@ class Gen:
 
     def action_stmts(self, key):
         d = self.d
-        name, par = d.choice(ACTIONS, key, "act")
-        val = self.fresh("s")
+        name, par = d.choice(ACTIONS[:1] if self.few_actions else ACTIONS, key, "act")
+        # with few_actions different flows ask for the very same action (same name and arguments): the interpreter then
+        # starts it once and shares it between the flows that asked (the bookkeeping behind F21, F22)
+        val = d.choice(["s1", "s2"], key, "fewval") if self.few_actions else self.fresh("s")
         form = d.weighted([("await", 3), ("start", 2), ("start_ref_wait", 2)], key, "form")
         if form == "await":
             return [{"k": "await_action", "action": name, "args": {par: val}}]
@@ -314,7 +320,7 @@ class Gen:
                     pos = len([s for s in b if s["k"] == "activate_flow"])
                     b.insert(pos, self.wait_external(("patch", i)))
         main_body = [{"k": how, "flow": tgt} for how, tgt in main_targets]
-        if self.finishing_main and d.chance(0.25, "mainends"):
+        if self.finishing_main and d.chance(0.45 if self.events else 0.25, "mainends"):
             # the main flow finishes (after an event): everything it started stops, the story restarts on the next event
             main_body.append(self.wait_external("mainwait"))
             main_body.append(self.marker("mainmark"))
@@ -323,7 +329,7 @@ class Gen:
         flows.append({"name": "main", "body": main_body})
         for i in range(self.n):
             fl = {"name": "f%d" % i, "body": bodies[i]}
-            if d.chance(0.15, "loopdec", i):
+            if d.chance(0.3 if self.events else 0.15, "loopdec", i):
                 fl["decorators"] = ['@loop("L%d")' % d.randint(1, 2, "loopid", i)]
             flows.append(fl)
         return {"flows": flows}
@@ -333,11 +339,73 @@ def gen_program(d, **kw):
     return Gen(d, **kw).program()
 
 
-def gen_deliveries(d, n, key="deliv"):
+def gen_kinship_competition(d):
+    """Constructed family for C06: 3-6 flows that all wait for the SAME event and then act (start/await an action drawn
+    from two scripts - identical actions are shared -, or send an event), arranged in a random forest: a flow starts /
+    activates / awaits its children at its head, a child may be linked from a second flow (two instances of one flow
+    under different parents), some flows sit in other interaction loops.  One delivery makes relatives compete: losers
+    are aborted together with their children while those children may be winners or co-winners of the same conflict
+    (the bookkeeping behind F19-F22)."""
+    n = d.randint(3, 6, "kn")
+    ev = d.choice(EVENTS, "kev")
+    children = {k: [] for k in range(n)}
+    roots = []
+    for k in range(n):
+        if k == 0 or d.chance(0.3, "kroot", k):
+            roots.append(k)
+        else:
+            children[d.randint(0, k - 1, "kparent", k)].append(k)
+        if k >= 2 and d.chance(0.35, "ksecond", k):
+            # a second link to the same flow from another flow: two instances under different parents
+            children[d.randint(0, k - 1, "kparent2", k)].append(k)
+    flows = []
+    main_body = [{"k": d.weighted([("activate_flow", 3), ("start_flow", 2)], "kmainhow", r), "flow": "f%d" % r} for r in roots]
+    if d.chance(0.4, "kmainends"):
+        main_body += [{"k": "match", "ev": ev, "args": {}}, {"k": "send", "ev": "Mmain", "args": {}}]
+    else:
+        main_body.append({"k": "match", "ev": "Never", "args": {}})
+    flows.append({"name": "main", "body": main_body})
+    for k in range(n):
+        body = []
+        awaited = None
+        for c in sorted(set(children[k])):
+            how = d.weighted([("activate_flow", 3), ("start_flow", 3), ("await_flow", 1 if awaited is None else 0)], "khow", k, c)
+            if how == "await_flow":
+                awaited = c
+            else:
+                body.append({"k": how, "flow": "f%d" % c})
+        if awaited is not None:
+            body.append({"k": "await_flow", "flow": "f%d" % awaited})
+        else:
+            body.append({"k": "match", "ev": ev, "args": {}})
+        act = d.weighted([("start_action", 4), ("await_action", 2), ("send", 2), ("start_ref_wait", 1)], "kact", k)
+        script = d.choice(["s1", "s2"], "kscript", k)
+        if act == "send":
+            body.append({"k": "send", "ev": "M%d" % k, "args": {}})
+        elif act == "start_ref_wait":
+            body += [{"k": "start_action", "action": "UtteranceBotAction", "args": {"script": script}, "ref": "$a%d" % k}, {"k": "match_ref", "ref": "$a%d" % k, "member": "Finished"}]
+        else:
+            body.append({"k": act, "action": "UtteranceBotAction", "args": {"script": script}})
+        tail = d.weighted([("end", 2), ("match_again", 3), ("when", 2), ("hold", 2)], "ktail", k)
+        if tail == "match_again":
+            body += [{"k": "match", "ev": ev, "args": {}}, {"k": "send", "ev": "T%d" % k, "args": {}}]
+        elif tail == "when":
+            body.append({"k": "when", "cases": [{"cond": "%s()" % ev, "body": [{"k": "send", "ev": "W%d" % k, "args": {}}]}], "else": None})
+        elif tail == "hold":
+            body.append({"k": "match", "ev": "Hold", "args": {}})
+        fl = {"name": "f%d" % k, "body": body}
+        if d.chance(0.3, "kloop", k):
+            fl["decorators"] = ['@loop("L%d")' % d.randint(1, 2, "kloopid", k)]
+        flows.append(fl)
+    deliveries = [{"type": ev} for _ in range(d.randint(1, 4, "kdeliv"))]
+    return {"flows": flows}, deliveries
+
+
+def gen_deliveries(d, n, key="deliv", events=None):
     """A seeded list of external user events."""
     out = []
     for k in range(n):
-        ev = d.choice(EVENTS, key, k, "ev")
+        ev = d.choice(events or EVENTS, key, k, "ev")
         ev_d = {"type": ev}
         if d.chance(0.6, key, k, "hasx"):
             ev_d["x"] = d.choice(VALUES, key, k, "x")
